@@ -190,3 +190,78 @@ contract('parso.python.diff._get_last_line', params={'node_or_leaf': 'ref:NodeOr
                   'implies(not %s and %s.type == "endmarker" and "\\n" in %s.prefix, result == epos(%s)[0] + 1)' % (LL_ENDS_NL, NXT, NXT, LL),
                   'implies(not %s and not (%s.type == "endmarker" and "\\n" in %s.prefix), result == epos(%s)[0])' % (LL_ENDS_NL, NXT, NXT, LL)],
          theories=['tree', 'treepos', 'leafnum'], props=['C04'])
+
+
+# ---- C04: the copy conditions of the diff parser, helper by helper.  Each postcondition says in the grammar's terms when
+# old nodes may be reused.
+FLOW_RULES = "('if_stmt', 'while_stmt', 'for_stmt', 'try_stmt')"
+STACK_NN = ('forall(lambda k: implies(0 <= k and k < len(stack), stack[k] is not None and stack[k].dfa is not None and '
+            'stack[k].nodes is not None), trigger=lambda k: stack[k])')
+NO_FLOW = lambda upto: ('forall(lambda k: implies(0 <= k and k < %s, not (stack[k].dfa.from_rule in %s)), '  # noqa: E731
+                        'trigger=lambda k: stack[k])' % (upto, FLOW_RULES))
+# no compound statement whose continuation (elif / else / except / finally) may still come is open on the parser stack
+contract('parso.python.diff._flows_finished', params={'pgen_grammar': 'any', 'stack': 'list:ref:StackNode'}, returns='bool',
+         requires=['stack is not None', STACK_NN],
+         ensures=['result == ' + NO_FLOW('len(stack)')],
+         loops={0: dict(invariant=[NO_FLOW('_i')])}, modifies=[], lists=[], props=['C04'])
+
+# a class or function definition -- possibly decorated, possibly async, in the nesting the grammar gives them
+# (decorated: decorators (classdef | funcdef | async_funcdef); async_funcdef / async_stmt: 'async' <stmt>) -- whose body is an
+# indented suite and not a one-line body
+INNER1 = "ite(node.type == 'decorated', node.children[len(node.children) - 1], node)"
+
+
+def _inner2(n1):
+    return "ite(%s.type in ('async_funcdef', 'async_stmt'), %s.children[len(%s.children) - 1], %s)" % (n1, n1, n1, n1)
+
+
+DEFN = _inner2('(' + INNER1 + ')')
+contract('parso.python.diff._func_or_class_has_suite', params={'node': 'ref:BaseNode'}, returns='bool',
+         requires=['node is not None', 'not is_leaf(node)', 'node.children is not None', 'len(node.children) >= 1',
+                   # grammar shape of the wrappers (C05): the wrapped statement is a node with children
+                   'forall(lambda n: implies(n is not None and not is_leaf(n), n.children is not None and len(n.children) >= 1 and '
+                   'n.children[len(n.children) - 1] is not None), kinds=dict(n="ref:BaseNode"), trigger=lambda n: n.children)',
+                   "forall(lambda n: implies(n is not None and n.type in ('decorated', 'async_funcdef', 'async_stmt'), "
+                   "not is_leaf(n) and not is_leaf(n.children[len(n.children) - 1])), kinds=dict(n='ref:BaseNode'), trigger=lambda n: n.children)",
+                   "forall(lambda n: implies(n is not None and n.type in ('classdef', 'funcdef'), not is_leaf(n)), "
+                   "kinds=dict(n='ref:BaseNode'), trigger=lambda n: n.children)"],
+         ensures=["result == ((%s).type in ('classdef', 'funcdef') and "
+                  "(%s).children[len((%s).children) - 1].type == 'suite')" % (DEFN, DEFN, DEFN)],
+         modifies=[], lists=[], theories=['tree'], props=['C04'])
+
+# the statements parsed so far may be closed and old nodes copied after them: no open flow statement, and the innermost
+# open decorator / suite decides: a pending decorator forbids it, a suite needs a statement besides its NEWLINE; at
+# file_input level (neither on the stack) it is always allowed
+DEC_OR_SUITE = "(stack[%s].dfa.from_rule == 'decorator' or stack[%s].dfa.from_rule == 'suite')"
+
+
+def _innermost(j):
+    return ('0 <= %s and %s < len(stack) and %s and forall(lambda m: implies(%s < m and m < len(stack), not %s), '
+            'trigger=lambda m: stack[m])' % (j, j, DEC_OR_SUITE % (j, j), j, DEC_OR_SUITE % ('m', 'm')))
+
+
+contract('parso.python.diff._suite_or_file_input_is_valid', params={'pgen_grammar': 'any', 'stack': 'list:ref:StackNode'},
+         returns='bool', requires=['stack is not None', STACK_NN],
+         ensures=['implies(not ' + NO_FLOW('len(stack)') + ', not result)',
+                  'implies(' + NO_FLOW('len(stack)') + ' and forall(lambda j: implies(0 <= j and j < len(stack), not ' + DEC_OR_SUITE % ('j', 'j') +
+                  '), trigger=lambda j: stack[j]), result)',
+                  'forall(lambda j: implies(' + NO_FLOW('len(stack)') + ' and ' + _innermost('j') + ', '
+                  "result == (stack[j].dfa.from_rule == 'suite' and len(stack[j].nodes) > 1)), trigger=lambda j: stack[j])"],
+         loops={0: dict(invariant=[NO_FLOW('len(stack)'),
+                                   'forall(lambda m: implies(len(stack) - _i <= m and m < len(stack), not ' + DEC_OR_SUITE % ('m', 'm') +
+                                   '), trigger=lambda m: stack[m])'])},
+         modifies=[], lists=[], props=['C04'])
+
+# a compound statement that carries flow (if / for / while / try / with, also behind 'async'): its first leaf is one of these
+# keywords; a node whose first child has no value (an interior node) is none
+contract('parso.python.diff._is_flow_node', params={'node': 'ref:BaseNode'}, returns='bool',
+         requires=['node is not None', 'not is_leaf(node)', 'node.children is not None', 'len(node.children) >= 1',
+                   'node.children[0] is not None',
+                   "implies(node.type == 'async_stmt', len(node.children) >= 2 and node.children[1] is not None and "
+                   "not is_leaf(node.children[1]) and node.children[1].children is not None and len(node.children[1].children) >= 1 "
+                   "and node.children[1].children[0] is not None)"],
+         ensures=["implies(node.type != 'async_stmt', result == (is_leaf(node.children[0]) and "
+                  "node.children[0].value in ('if', 'for', 'while', 'try', 'with')))",
+                  "implies(node.type == 'async_stmt', result == (is_leaf(node.children[1].children[0]) and "
+                  "node.children[1].children[0].value in ('if', 'for', 'while', 'try', 'with')))"],
+         modifies=[], lists=[], theories=['tree'], props=['C04'])
